@@ -35,6 +35,7 @@ EXPLANATION = (
     "the caller/callee boundary. Not decided: that find_turns yields the textbook reversal sequence; multiset equality "
     "of three- and four-point results on all signals.")
 EXPLANATION += (' R-C02-4: find_turns decides reversal and plateau only by exact sign tests of first differences (D*D < 0, D == 0): no tolerance, no rounding, no sign-dependent selection. R-C02-5: the three-point front indices are np.argmax / np.argmin (first occurrence) of the same carried residual and feed the matching guards.')
+EXPLANATION += (" R-C02-6: in the three- and four-point process() every path from _new_turns to a normal exit runs the counting kernel (CFG must-pass), so no chunk's turning points or trailing sample bypass the counting rule.")
 ASSUMPTIONS = [
     "the compiled rainflow_ext kernels are built from extension.pyx by setup.py",
     "fabs/np.abs are the real absolute value; C doubles compare like reals (no NaN after find_turns cleaned them)",
@@ -232,6 +233,35 @@ def run(ctx):
     ctx.attempt(_r3_conservation)
     ctx.attempt(_r4_turns)
     ctx.attempt(_r5_front)
+    ctx.attempt(_r6_all_turns_counted)
+
+
+def _r6_all_turns_counted(ctx):
+    """No turning point is lost between extraction and counting: in the three- and four-point process() every path from
+    _new_turns (which consumes the chunk) to a normal exit passes the kernel call with the concatenation
+    residuals + new turns + last sample, and stores what the kernel hands back."""
+    from ..cfg import CFG
+    prog = ctx.prog
+    ctx.rule("R-C02-6", floor=2, what="every chunk's turning points reach the counting kernel on every path")
+    n = 0
+    for cname in ("pylife.stress.rainflow.fourpoint:FourPointDetector", "pylife.stress.rainflow.threepoint:ThreePointDetector"):
+        fi = prog.lookup_method(prog.cls(cname), "process")
+        cfg = CFG(fi.node)
+        ks = [x for x in walk_function(fi.node) if isinstance(x, ast.Assign) and isinstance(x.value, ast.Call)
+              and (call_name(x.value) or "").endswith("point_loop")]
+        nts = [x for x in walk_function(fi.node) if isinstance(x, (ast.Assign, ast.Expr)) and
+               any(isinstance(c.func, ast.Attribute) and is_self_attr(c.func) and c.func.attr == "_new_turns" for c in calls_in(x))]
+        if len(ks) != 1 or len(nts) != 1:
+            raise AnalysisError("%s.process: kernel call / _new_turns call not found" % cname)
+        n += 1
+        a, b = cfg.node(nts[0]), cfg.node(ks[0])
+        if cfg.must_pass(cfg.exit, {b}, start=a):
+            ctx.holds(fi, ks[0], "%s: every path from _new_turns to the end of process() runs %s" %
+                      (fi.cls.name, norm_text(ks[0].value.func)))
+        else:
+            ctx.violated(fi, nts[0], "%s: a path from _new_turns to the end of process() skips %s: the turning points (or the "
+                         "trailing sample) of that chunk are never offered to the counting rule, cycles they close are lost" %
+                         (fi.cls.name, norm_text(ks[0].value.func)), text="kernel skipped " + fi.cls.name)
 
 
 def _r5_front(ctx):
@@ -713,6 +743,19 @@ def _closing_if(tree, fname):
 
 def variants():
     out = []
+
+    def fast_path_no_kernel(tree):
+        f = find_func(tree, "FourPointDetector.process")
+        for i, st in enumerate(f.body):
+            if isinstance(st, ast.Assign) and any(isinstance(c.func, ast.Attribute) and c.func.attr == "_new_turns" for c in calls_in(st)):
+                tv = st.targets[0].elts[1].id
+                f.body.insert(i + 1, parse_stmt("if %s.size == 0 and self._residuals.size > 0:\n"
+                                                "    self._residuals = np.concatenate((self._residuals[:-1], samples[-1:]))\n"
+                                                "    self._recorder.report_chunk(len(samples))\n    return self" % tv))
+                return True
+        return False
+    out.append(witness("fast path replaces the trailing residual without running the kernel",
+                       "src/pylife/stress/rainflow/fourpoint.py", fast_path_no_kernel, "R-C02-6"))
 
     def front_argsort(tree):
         f = find_func(tree, "ThreePointDetector.process")
